@@ -4,6 +4,8 @@ package main
 
 import (
 	"fmt"
+	"os"
+	"go/ast"
 	"go/token"
 	"go/types"
 	"strings"
@@ -47,6 +49,8 @@ type Exec struct {
 	pure      int // >0 while evaluating contract expressions: no obligations are emitted
 	inputs    []*InputSym
 	callStack []string
+	finite    map[int][]int64
+	atDeclared map[string]bool
 }
 
 type InputSym struct {
@@ -141,7 +145,51 @@ func (x *Exec) typeInv(st *State, v *Val) *Term {
 		r := ev.eval(cl.Expr)
 		out = And(out, r.T)
 	}
+	x.noteFiniteDomain(out)
 	return out
+}
+
+// noteFiniteDomain recognises invariants of the form t == c1 || t == c2 || ... and remembers the domain of t.
+func (x *Exec) noteFiniteDomain(inv *Term) {
+	if inv.op != "or" {
+		return
+	}
+	var subj *Term
+	var vals []int64
+	for _, d := range inv.args {
+		if d.op != "=" {
+			return
+		}
+		a, b := d.args[0], d.args[1]
+		if _, ok := a.intVal(); ok {
+			a, b = b, a
+		}
+		c, ok := b.intVal()
+		if !ok {
+			return
+		}
+		if subj != nil && subj != a {
+			return
+		}
+		subj = a
+		vals = append(vals, c)
+	}
+	if subj != nil && len(vals) <= 16 {
+		if x.finite == nil {
+			x.finite = map[int][]int64{}
+		}
+		x.finite[subj.id] = vals
+	}
+}
+
+// divBy applies a division-like operator; a divisor with a known small finite domain is expanded into a
+// case split over constants, which keeps the arithmetic linear.
+func (x *Exec) divBy(op func(a, b *Term) *Term, a, b *Term) *Term {
+	// (expansion into a case split is done at solving time, see splitDomains)
+	if vals, ok := x.finite[b.id]; ok {
+		x.job.addDomain(b, vals)
+	}
+	return op(a, b)
 }
 
 // checkInv emits the obligation that v (which is about to escape) satisfies its type invariant.
@@ -272,7 +320,15 @@ func (x *Exec) elemArr(st *State, elemT types.Type, ref *Term) *Term {
 }
 
 func (x *Exec) readElem(st *State, elemT types.Type, sl, idx *Term) *Term {
-	v := Select(x.elemArr(st, elemT, slRef(sl)), Add(slOff(sl), idx))
+	arr := x.elemArr(st, elemT, slRef(sl))
+	v := Select(arr, Add(slOff(sl), idx))
+	if !hasFreeBound(idx) && !v.isConst() {
+		// ground instance of the at-function axiom: gives quantified contract clauses a term to match
+		_, es := arr.sort.arrayParts()
+		name := "at." + sanitize(es.Name)
+		DeclareFun(name, es, arr.sort, SInt, SInt)
+		x.ctx.assumeGlobal(st, Eq(App(name, es, arr, slOff(sl), idx), v))
+	}
 	x.assumeType(st, v, elemT)
 	return v
 }
@@ -706,11 +762,11 @@ func (x *Exec) enterLoop(fr *Frame, lp *loop, st *State) {
 	for _, t := range x.autoInvariants(fr, lp, nil) {
 		x.ctx.assume(st, t)
 	}
-	for _, v := range x.evalClauses(fr, st, x.loopClauses(fr, lp, "invariant"), nil, "invariant") {
+	for _, v := range x.evalClausesAt(fr, st, x.loopClauses(fr, lp, "invariant"), nil, "invariant", lp.header) {
 		x.ctx.assume(st, v.t)
 	}
 	rt := &loopRt{st: st.clone()}
-	for _, v := range x.evalClauses(fr, st, x.loopClauses(fr, lp, "decreases"), nil, "decreases") {
+	for _, v := range x.evalClausesAt(fr, st, x.loopClauses(fr, lp, "decreases"), nil, "decreases", lp.header) {
 		rt.variant = append(rt.variant, v.t)
 	}
 	fr.headerSt[lp.header] = rt
@@ -759,15 +815,20 @@ type evalRes struct {
 
 // evalClauses evaluates contract clauses (with let-bindings) in state st.
 func (x *Exec) evalClauses(fr *Frame, st *State, cls []*Clause, over map[ssa.Value]*Val, kind string) []evalRes {
+	return x.evalClausesAt(fr, st, cls, over, kind, nil)
+}
+
+func (x *Exec) evalClausesAt(fr *Frame, st *State, cls []*Clause, over map[ssa.Value]*Val, kind string, blk *ssa.BasicBlock) []evalRes {
 	var out []evalRes
-	ev := &evaluator{x: x, fr: fr, st: st, over: over, lets: map[string]*Val{}}
+	ev := &evaluator{x: x, fr: fr, st: st, over: over, lets: map[string]*Val{}, lazy: map[string]ast.Expr{}, blk: blk}
 	for k, v := range fr.lets {
 		ev.lets[k] = v
 	}
 	for _, cl := range cls {
 		cl.Used = true
 		if cl.Kind == "let" {
-			ev.lets[cl.Name] = ev.eval(cl.Expr)
+			delete(ev.lets, cl.Name)
+			ev.lazy[cl.Name] = cl.Expr
 			continue
 		}
 		if cl.Kind != kind {
@@ -776,6 +837,9 @@ func (x *Exec) evalClauses(fr *Frame, st *State, cls []*Clause, over map[ssa.Val
 		v := ev.eval(cl.Expr)
 		if v.T == nil {
 			unsupportedf("clause %q does not evaluate to a term", cl.Src)
+		}
+		if os.Getenv("GOVC_DEBUG") != "" {
+			fmt.Fprintf(os.Stderr, "DEBUG %s %s clause %q => %s\n", fr.fn.Name(), kind, cl.Src, truncate(v.T.String(), 600))
 		}
 		out = append(out, evalRes{v.T, cl})
 	}
@@ -841,11 +905,31 @@ func (x *Exec) autoInvariants(fr *Frame, lp *loop, over map[ssa.Value]*Val) []*T
 	return out
 }
 
+// atFun: element access as an uninterpreted function (good quantifier trigger), linked to select by an axiom.
+func (x *Exec) atFun(st *State, arr, off, idx *Term) *Term {
+	_, es := arr.sort.arrayParts()
+	name := "at." + sanitize(es.Name)
+	DeclareFun(name, es, arr.sort, SInt, SInt)
+	key := [2]int{-11, len(name)*1000003 + int(name[len(name)-1])}
+	if !x.atDeclared[name] {
+		if x.atDeclared == nil {
+			x.atDeclared = map[string]bool{}
+		}
+		x.atDeclared[name] = true
+		a := BoundVar("a", arr.sort)
+		o := BoundVar("o", SInt)
+		k := BoundVar("k", SInt)
+		x.ctx.assumeGlobal(st, Forall([]*Term{a, o, k}, Eq(App(name, es, a, o, k), Select(a, Add(o, k))), []*Term{App(name, es, a, o, k)}))
+	}
+	_ = key
+	return App(name, es, arr, off, idx)
+}
+
 func (x *Exec) checkInvariants(fr *Frame, lp *loop, st *State, over map[ssa.Value]*Val, kind string) {
 	for i, t := range x.autoInvariants(fr, lp, over) {
 		x.oblige(st, fmt.Sprintf("%s(loop%d.auto%d)", kind, lp.ordinal, i+1), t, lp.header.Instrs[0].Pos(), "counter never drops below its start value")
 	}
-	for i, r := range x.evalClauses(fr, st, x.loopClauses(fr, lp, "invariant"), over, "invariant") {
+	for i, r := range x.evalClausesAt(fr, st, x.loopClauses(fr, lp, "invariant"), over, "invariant", lp.header) {
 		x.oblige(st, fmt.Sprintf("%s(loop%d.%d)", kind, lp.ordinal, i+1), r.t, lp.header.Instrs[0].Pos(), r.cl.Src)
 	}
 }
@@ -869,7 +953,7 @@ func (x *Exec) backEdge(fr *Frame, from, to *ssa.BasicBlock, st *State) {
 	x.checkInvariants(fr, lp, st, over, "inv-step")
 	rt := fr.headerSt[to]
 	if rt != nil && len(rt.variant) > 0 {
-		now := x.evalClauses(fr, st, x.loopClauses(fr, lp, "decreases"), over, "decreases")
+		now := x.evalClausesAt(fr, st, x.loopClauses(fr, lp, "decreases"), over, "decreases", lp.header)
 		// lexicographic decrease, bounded below by 0
 		var dec *Term = False
 		eqPrefix := True
@@ -1118,10 +1202,12 @@ func (x *Exec) binopVals(st *State, op token.Token, a, b *Val, rt types.Type, po
 		return &Val{T: Mul(a.T, b.T), Typ: rt}
 	case token.QUO:
 		x.oblige(st, "div", Neq(b.T, IntLit(0)), pos, "division by zero")
-		return &Val{T: GoDiv(a.T, b.T), Typ: rt}
+		x.divFacts(st, a.T, b.T)
+		return &Val{T: x.divBy(GoDiv, a.T, b.T), Typ: rt}
 	case token.REM:
 		x.oblige(st, "div", Neq(b.T, IntLit(0)), pos, "division by zero")
-		return &Val{T: GoRem(a.T, b.T), Typ: rt}
+		x.divFacts(st, a.T, b.T)
+		return &Val{T: x.divBy(GoRem, a.T, b.T), Typ: rt}
 	case token.LSS:
 		return &Val{T: Lt(a.T, b.T), Typ: rt}
 	case token.LEQ:
@@ -1461,4 +1547,22 @@ func isAllocTerm(t *Term) bool {
 		t = t.args[0]
 	}
 	return t.op == "sym" && strings.HasPrefix(t.val, "alloc")
+}
+
+// divFacts states the defining properties of Euclidean div/mod for a symbolic divisor
+// (the solvers treat these as non-linear and do not derive them on their own).
+func (x *Exec) divFacts(st *State, a, b *Term) {
+	if _, ok := b.intVal(); ok {
+		return
+	}
+	if hasFreeBound(a) || hasFreeBound(b) {
+		return
+	}
+	for _, num := range []*Term{a, Neg(a)} {
+		q, r := EDiv(num, b), EMod(num, b)
+		x.ctx.assumeGlobal(st, Implies(Gt(b, IntLit(0)), And(Le(IntLit(0), r), Lt(r, b), Eq(num, Add(Mul(b, q), r)))))
+	}
+	abs := func(t *Term) *Term { return Ite(Ge(t, IntLit(0)), t, Neg(t)) }
+	q, r := EDiv(abs(a), abs(b)), EMod(abs(a), abs(b))
+	x.ctx.assumeGlobal(st, Implies(Neq(b, IntLit(0)), And(Le(IntLit(0), r), Lt(r, abs(b)), Eq(abs(a), Add(Mul(abs(b), q), r)))))
 }
